@@ -108,11 +108,11 @@ func specRel(opts []layers.TCPOption, a int, o int, isn uint32) uint32 {
 //@ ensures[C09.xor]         (ret0 == nil) != (ret1 == nil)
 //@ ensures[C09.class]       ret1 != nil ==> chain(ret1, *common.ReceiveProbeNoPktError) || chain(ret1, *common.BadPacketError) || chain(ret1, *NotSupportedError)
 //@ ensures[C09+C20.nosack]  ret1 != nil && chain(ret1, *NotSupportedError) ==> specOnConn(s, parser) && !exists(a, 0, len(parser.TCP.Options), specSackOpt(parser.TCP.Options, a) && len(parser.TCP.Options[a].OptionData) >= 8)
-//@ ensures[C01+C05+C11.sound.kind]  ret0 != nil ==> specIsTCP(parser) || specIsTE4(parser)
-//@ ensures[C01+C05+C11.sound.ack]   ret0 != nil && specIsTCP(parser) ==> specOnConn(s, parser) && specInRange(s, uint32(ret0.TTL)) && s.sendTimes[ret0.TTL] != 0
-//@ ensures[C01+C05+C11.sound.ack.min] ret0 != nil && specIsTCP(parser) ==> forall(a, 0, len(parser.TCP.Options), forall(o, 0, len(parser.TCP.Options[a].OptionData)-7, specSackOpt(parser.TCP.Options, a) && o%8 == 0 ==> int(ret0.TTL) <= int(uint32(int(be32(parser.TCP.Options[a].OptionData, o)) - int(s.state.localInitSeq)))))
-//@ ensures[C01+C05+C11.sound.ack.att] ret0 != nil && specIsTCP(parser) ==> exists(a, 0, len(parser.TCP.Options), exists(o, 0, len(parser.TCP.Options[a].OptionData)-7, specSackOpt(parser.TCP.Options, a) && o%8 == 0 && int(ret0.TTL) == int(uint32(int(be32(parser.TCP.Options[a].OptionData, o)) - int(s.state.localInitSeq)))))
-//@ ensures[C01+C05+C11.sound.te]    ret0 != nil && specIsTE4(parser) ==> specFlowTE(s, parser) && specQuotedRel(s, parser) == uint32(ret0.TTL) && specInRange(s, uint32(ret0.TTL)) && s.sendTimes[ret0.TTL] != 0
+//@ ensures[C01+C05+C11+C12.sound.kind]  ret0 != nil ==> specIsTCP(parser) || specIsTE4(parser)
+//@ ensures[C01+C05+C11+C12.sound.ack]   ret0 != nil && specIsTCP(parser) ==> specOnConn(s, parser) && specInRange(s, uint32(ret0.TTL)) && s.sendTimes[ret0.TTL] != 0
+//@ ensures[C01+C05+C11+C12.sound.ack.min] ret0 != nil && specIsTCP(parser) ==> forall(a, 0, len(parser.TCP.Options), forall(o, 0, len(parser.TCP.Options[a].OptionData)-7, specSackOpt(parser.TCP.Options, a) && o%8 == 0 ==> int(ret0.TTL) <= int(uint32(int(be32(parser.TCP.Options[a].OptionData, o)) - int(s.state.localInitSeq)))))
+//@ ensures[C01+C05+C11+C12.sound.ack.att] ret0 != nil && specIsTCP(parser) ==> exists(a, 0, len(parser.TCP.Options), exists(o, 0, len(parser.TCP.Options[a].OptionData)-7, specSackOpt(parser.TCP.Options, a) && o%8 == 0 && int(ret0.TTL) == int(uint32(int(be32(parser.TCP.Options[a].OptionData, o)) - int(s.state.localInitSeq)))))
+//@ ensures[C01+C05+C11+C12.sound.te]    ret0 != nil && specIsTE4(parser) ==> specFlowTE(s, parser) && specQuotedRel(s, parser) == uint32(ret0.TTL) && specInRange(s, uint32(ret0.TTL)) && s.sendTimes[ret0.TTL] != 0
 //@ ensures[C01.addr]        ret0 != nil ==> ret0.IP == packets.SpecOuterSrc(parser)
 //@ ensures[C02.compl.te]    specPlain4(parser) && specFlowTE(s, parser) && specInRange(s, specQuotedRel(s, parser)) && s.sendTimes[specQuotedRel(s, parser)] != 0 ==> ret0 != nil && uint32(ret0.TTL) == specQuotedRel(s, parser)
 //@ ensures[C04.dest]        ret0 != nil ==> (ret0.IsDest == (specIsTCP(parser) || packets.SpecOuterSrc(parser) == s.params.Target.Addr()))
